@@ -1084,6 +1084,13 @@ def _worker(args):
     rundir = tempfile.mkdtemp(prefix="verif-c03-")
     try:
         for i, (mode, n) in enumerate(jobs):
+            if mode == "sd-forward":
+                for j in range(n):
+                    try:
+                        sd_forward_case(b, os.path.join(rundir, "sd%d" % j), gen.rng_for(seed, PROP, "sd", shard, j), part, shard * 1000 + j)
+                    except (client.Closed, client.Timeout) as e:
+                        part.inconclusive.append("sd-forward case aborted: %s" % type(e).__name__)
+                continue
             sc = _run_one(b, rundir, seed, shard, i, part, mode, n)
             if sc is not None and shard in (0, 1, 4) and i == 0:
                 part.sample({"scenario": sc.sid, "mode": mode, "steps": sc.steps[:12]})
@@ -1092,6 +1099,60 @@ def _worker(args):
     if "max-names-from-one-daemon" in part.counters:
         part.extra_max = part.counters.pop("max-names-from-one-daemon")
     return part
+
+
+def sd_forward_case(b, rundir, rng, part, cid):
+    """Messages the bus builds itself and PARKS: with --systemd-activation, UpdateActivationEnvironment makes the bus send
+    org.freedesktop.systemd1.Manager.SetEnvironment; while nobody owns org.freedesktop.systemd1 that call waits as a
+    pending activation and is delivered later through the ordinary dispatch path.  Whoever then takes the name must
+    see it as coming from org.freedesktop.DBus - also when the client whose request caused it has left meanwhile."""
+    d = busproc.Daemon(b, rundir, busproc.make_config("@SOCK@"), name="sd", extra_args=["--systemd-activation"])
+    wit = {"part": "sd-forward", "case": cid}
+    try:
+        if not d.started():
+            part.inconclusive.append("sd-forward: daemon did not start: " + d.stderr_text()[-300:])
+            return
+        A = client.connect(d.sock)
+        S = client.connect(d.sock)
+        n = rng.randint(1, 3)
+        env = [(b"VERIF_K%d" % i, b"v%d" % rng.randrange(100)) for i in range(n)]
+        rep = A.bus_call(b"UpdateActivationEnvironment", b"a{ss}", [env])
+        if rep.msg.type != 2:
+            part.inconclusive.append("sd-forward: UpdateActivationEnvironment refused: %r" % (rep,))
+            return
+        leaves = rng.random() < 0.5
+        if leaves:
+            ua = A.unique
+            A.close()
+            S.bus_call(b"GetId")
+        taker = S if rng.random() < 0.7 or leaves else A
+        rep = taker.bus_call(b"RequestName", b"su", [b"org.freedesktop.systemd1", 0])
+        taker.barrier()
+        taker.barrier()
+        got = [r for r in taker.log if r.msg.type == 1 and r.msg.known().get(3) == b"SetEnvironment"]
+        part.count("sd-forward-cases")
+        part.evaluations += 1
+        part.sig("sd-forward", leaves, taker is A, len(got))
+        if len(got) != 1:
+            part.violation("%s:parked-bus-message-delivered-%d-times:SetEnvironment" % (PROP, len(got)),
+                           "the SetEnvironment call the bus built for UpdateActivationEnvironment reached the new owner of "
+                           "org.freedesktop.systemd1 %d times" % len(got), wit)
+        for r in got:
+            part.count("bus-frames-checked")
+            if r.msg.known().get(7) != b"org.freedesktop.DBus":
+                part.violation("%s:bus-originated-message-carries-client-sender:SetEnvironment" % PROP,
+                               "a message built by the bus arrived with sender %r (requester %s)" %
+                               (r.msg.known().get(7), "had left" if leaves else "still connected"), dict(wit, frame=repr(r)[:600]))
+        for c in (A, S):
+            try:
+                c.close()
+            except Exception:
+                pass
+    finally:
+        d.stop()
+        for cls, site, text in d.problems():
+            part.violation("%s:%s:%s" % (PROP, cls, site), "daemon reported %s (sd-forward)" % cls, dict(wit, stderr=text[-2000:]))
+        shutil.rmtree(rundir, ignore_errors=True)
 
 
 def plan(tier, scale):
@@ -1109,6 +1170,9 @@ def plan(tier, scale):
     order = list(range(cycle_daemons, 16)) + list(range(cycle_daemons)) if tier == "quick" else list(range(1, 16))
     for k in range(nsess):
         jobs[order[k % len(order)]].append(("probes", per))
+    nsd = max(1, int((32 if tier == "quick" else 600) * scale))
+    for sshard in range(min(8, nsd)):
+        jobs[15 - sshard].append(("sd-forward", max(1, nsd // 8)))
     return jobs
 
 
@@ -1162,6 +1226,7 @@ def run(tier, seed, replay=None, scale=1.0):
     r.require("op:prehello", need(40))
     r.require("op:disconnect", need(40))
     r.require("op:reconnect", need(20))
+    r.require("sd-forward-cases", need(24))
     r.assumptions = ["which connections receive a probe is not judged here (C05/C07); only what arrives is",
                      "whether a connection that wrote before Hello is disconnected is recorded, not judged: the statement only "
                      "requires that nothing it wrote is routed",
